@@ -893,6 +893,44 @@ def _run_W(res):
         report("MassAction(Arrhenius)", "sympy", guarded(lambda: float(sp.N(sp.sympify(ma(0)(dict(V, temperature=Ts, A=As), backend=sp, reaction=rx)).subs({Ts: T, As: conc["A"]})))), (av * cp, 2 * ae * cp), case)
         Vu = dict({k_: v_ * u.molar for k_, v_ in conc.items()}, temperature=T * u.kelvin)
         report("MassAction(Arrhenius)", "units", guarded(lambda: to_unitless(ma(1)(Vu, backend=Backend(), reaction=rx), u.molar / u.second)), (av * cp, 2 * ae * cp), case)
+        # --- the same objects used more than once (a solver evaluates an expression thousands of times) -------------
+        def twice_units():
+            m = MassAction([k / u.second / u.molar ** (order - 1)])
+            m(Vu, backend=Backend(), reaction=rx)
+            return to_unitless(m(Vu, backend=Backend(), reaction=rx), u.molar / u.second)
+
+        report("MassAction[second evaluation of the same object]", "units", guarded(twice_units), (k * cp, 8 * RX.EPS * k * cp), case)
+
+        def twice_array():
+            m = MassAction([np.array([k, 2 * k])])
+            ca = {k_: np.array([v_, v_]) for k_, v_ in conc.items()}
+            m(ca, backend=np, reaction=rx)
+            return float(m(ca, backend=np, reaction=rx)[1]) / 2
+
+        report("MassAction[second evaluation of the same object]", "numpy", guarded(twice_array), (k * cp, 8 * RX.EPS * k * cp), case)
+
+        def override_untouched():
+            kq = 2 * k / u.second / u.molar ** (order - 1)
+            m = MassAction([k / u.second / u.molar ** (order - 1)], ["kov%d" % order])
+            m(dict(Vu, **{"kov%d" % order: kq}), backend=Backend(), reaction=rx)
+            return to_unitless(kq, 1 / u.second / u.molar ** (order - 1))
+
+        report("MassAction[caller's override value after the call]", "units", guarded(override_untouched), (2 * k, 4 * RX.EPS * k), case)
+
+        def named_after_unnamed():
+            from chempy.kinetics.arrhenius import ArrheniusParam
+
+            par = ArrheniusParam(k, 600.0 * 8.314472)
+            Reaction(rx.reac, rx.prod, par).rate(V)  # uses the parameter set once without names
+            e1 = par.as_RateExpr(unique_keys=("Aov%d" % order, "Eov%d" % order))
+            e2 = par.as_RateExpr(unique_keys=("Aother%d" % order, "Eother%d" % order))
+            v1 = e1(dict(V, **{"Aov%d" % order: 2 * k}), reaction=rx)
+            v2 = e2(dict(V, **{"Aother%d" % order: 3 * k, "Aov%d" % order: 7 * k}), reaction=rx)
+            return [v1 / 2, v2 / 3]
+
+        got = guarded(named_after_unnamed)
+        for o in (got if not isinstance(got, str) else [got, got]):
+            report("ArrheniusParam.as_RateExpr[named, after an unnamed use of the same parameter set]", "math/override", o, (av * cp, 4 * ae * cp), case)
         rate = guarded(lambda: [Reaction(rx.reac, rx.prod, ma(0)).rate(V)[s_] for s_ in ("A", "P")])
         for o, (s_, nu) in zip(rate if not isinstance(rate, str) else [rate] * 2, (("A", -rx.reac["A"]), ("P", 1))):
             report("Reaction.rate(MassAction(Arrhenius))[%s]" % s_, "math", o, (nu * av * cp, 2 * ae * cp * abs(nu)), case)
